@@ -22,6 +22,7 @@ mod selfenc;
 mod clientread;
 mod quotefetch;
 mod replication;
+mod fullglue;
 
 use std::path::PathBuf;
 
@@ -51,6 +52,7 @@ fn main() {
         ("ClientRead", clientread::generate),
         ("QuoteFetch", quotefetch::generate),
         ("Replication", replication::generate),
+        ("FullGlue", fullglue::generate),
     ];
     let mut failed = false;
     for (name, g) in gens {
